@@ -7,7 +7,7 @@ CFG = {
                   "float comparators return the native sign whenever |a-b| > tolerance and 0 whenever |a-b| is below a "
                   "representable bound under the tolerance (for any monotone, odd rounding that fixes representables); "
                   "BinarySearch(Func) = (lowest insertion position, found) on sorted input without midpoint overflow below 2^63; "
-                  "IsSorted(Func), Compare(Func), Equal(Func), Index, Contains equal their definitions; CompareFunc returns exactly the first non-zero result of an ARBITRARY cmp (else the comparison of the lengths) and EqualFunc = same length and eq on every pair, both calling the user function on (s1[i], s2[i]) in that argument order, in increasing i, up to the deciding pair (C10_compare_func_spec, C10_equal_func_spec; the runs hand the real code comparison functions of non-unit magnitude and asymmetric predicates with recorded calls, C10_cmpsel_laws); pdqsort and the stable sort "
+                  "IsSorted(Func), Compare(Func), Equal(Func), Index, Contains equal their definitions; CompareFunc returns exactly the first non-zero result of an ARBITRARY cmp (else the comparison of the lengths) and EqualFunc = same length and eq on every pair, both calling the user function on (s1[i], s2[i]) in that argument order, in increasing i, up to the deciding pair (C10_compare_func_spec, C10_equal_func_spec; the runs hand the real code comparison functions of non-unit magnitude and asymmetric predicates with recorded calls, C10_cmpsel_laws); Index = number of leading elements not == v (or -1) and Contains = existsb for an ARBITRARY element equality (C10_element_relations); Equal / Compare / Index / Contains / IsSorted are also run on float and float-struct elements with NaN (class codes; NaN unequal to itself and incomparable) and on aliased operands (same slice, views of one array); pdqsort and the stable sort "
                   "return a Permutation of the input for every input and every less (every write is an in-range swap); "
                   "insertionSort and heapSort (siftDown invariant) sort their range, touch nothing else and never index out of "
                   "range for every strict weak order; partition and partitionEqual satisfy their post-conditions (left part < pivot "
@@ -35,7 +35,7 @@ CFG = {
                   "the pdqsort invariant data[a-1] <= data[a:b] (premise Pre of C10_partial_insertion / C10_pdqsort_range; shown to "
                   "hold at every call inside C10_sort_sorted). NOT covered by theorems: the tie between the models and the Go "
                   "code is by replay, not by proof; bcomparator.Sort, SortComparator, list.Sort and "
-                  "GetSortedValues delegate to the standard library's sort.Sort: no model, output checker only. Float comparators: "
+                  "GetSortedValues delegate to the standard library's sort.Sort: no model, output checker only. Float comparators (not Equal/Index/Contains/Compare over float slices, which ARE covered with NaN): "
                   "NaN and infinities are outside the theorem and the generators; between tol/2 and tol the result depends on the "
                   "rounding and either 0 or the sign is accepted by the model tie. The less-call sequence is compared through a "
                   "31-bit rolling hash plus the call count, not element by element. Sort (zsortordered.go) cannot be given a "
@@ -48,7 +48,7 @@ CFG = {
         "C10_sort_sorted_partial", "C10_sort_sorted", "C10_pdqsort_range", "C10_partial_insertion", "C10_pivot_in_range",
         "C10_stable_sorted", "C10_stable_key", "C10_symmerge", "C10_rotate",
         "C10_sorted_perm_checker", "C10_checker_orders", "C10_stable_checker",
-        "C10_compare_func_spec", "C10_equal_func_spec", "C10_cmpsel_laws"])],
+        "C10_compare_func_spec", "C10_equal_func_spec", "C10_cmpsel_laws", "C10_element_relations"])],
     "trusted": [
         "IEEE-754 subtraction of the float comparators = a rounding of the exact difference that is monotone, odd and the "
         "identity on representable values; 0.0000001 denotes a representable positive double (premises of C10_cmp_float)",
